@@ -35,6 +35,9 @@ type StructV struct {
 }
 type TupleV []Val
 
+// ArrayV is an array *value* (a copy of an array, as `range` over an array makes): its elements are not tracked.
+type ArrayV struct{ T *types.Array }
+
 // PtrV points to a non-struct location.
 type PtrV struct {
 	Kind string // "field", "elem", "cell", "array"
@@ -99,6 +102,7 @@ type Exec struct {
 	ifaceImpl   map[string]*types.Named  // interface type name -> its unique in-module implementation (pointer receiver)
 	assumeReq   func(callee string, r *CExpr) bool // requires-clauses that are assumed (listed) instead of obliged
 	afterInstr  func(fc *frameCtx, st *State, in ssa.Instruction)
+	extraBinds  binds // identifiers available in every contract expression (table lengths)
 }
 
 func newExec(w *World, fn *ssa.Function, props []string) *Exec {
@@ -467,8 +471,11 @@ func (x *Exec) storeStruct(s *State, ref *Term, t types.Type, v StructV) {
 }
 
 func (x *Exec) loadLoc(s *State, p PtrV) Val {
-	if _, ok := p.T.Underlying().(*types.Array); ok {
-		oos("load of array value")
+	if at, ok := p.T.Underlying().(*types.Array); ok {
+		if x.roTables == nil {
+			oos("load of array value")
+		}
+		return ArrayV{at} // contents not tracked: elements read from the copy are unconstrained
 	}
 	cs := compsOf(p.T)
 	ts := make([]*Term, len(cs))
